@@ -146,7 +146,8 @@ def literal_cases():
     return [("9223372036854775807", MAX), ("9223372036854775808", None), ("1__0_", 10), ("007", 7), ("0", 0),
             ("1_000_000", 1000000), ("99999999999999999999", None), ("-9223372036854775807", -MAX),
             ("-9223372036854775807 - 1", MIN), ("0_0", 0), ("9_223_372_036_854_775_807", MAX),
-            ("18446744073709551616", None), ("-0", 0), ("- 5", -5), ("3 - -4", 7), ("3 -4", -1), ("3 - - 4", 7)]
+            ("18446744073709551616", None), ("-9223372036854775808", None), ("5 - 9223372036854775808", None), ("-5 - 9223372036854775808", None),
+            ("36893488147419103232", None), ("18446744073709551617", None), ("100000000000000000000", None), ("-0", 0), ("- 5", -5), ("3 - -4", 7), ("3 -4", -1), ("3 - - 4", 7)]
 
 
 def run(rep, tier):
